@@ -421,3 +421,41 @@ func (r *R) msgType(name string) string {
 }
 
 type ssaFunction = ssa.Function
+
+type ssaUnOp = ssa.UnOp
+type ssaStore = ssa.Store
+type ssaCall = ssa.Call
+
+// fromGetValue: v is (a field of) the result of a cache getValue call.
+func fromGetValue(v ssa.Value) bool {
+	for i := 0; i < 6 && v != nil; i++ {
+		switch x := v.(type) {
+		case *ssa.Extract:
+			if c, ok := x.Tuple.(*ssa.Call); ok {
+				if sc := c.Common().StaticCallee(); sc != nil && sc.Name() == "getValue" {
+					return true
+				}
+			}
+			return false
+		case *ssa.Field:
+			v = x.X
+		case *ssa.FieldAddr:
+			v = x.X
+		case *ssa.UnOp:
+			v = x.X
+		default:
+			return false
+		}
+	}
+	return false
+}
+
+// isPtrToInt: v has type *int64 / *uint64 (a cache word), not **T.
+func isPtrToInt(v ssa.Value) bool {
+	pt, ok := v.Type().Underlying().(*types.Pointer)
+	if !ok {
+		return false
+	}
+	b, ok := pt.Elem().Underlying().(*types.Basic)
+	return ok && b.Info()&types.IsInteger != 0
+}
